@@ -94,6 +94,8 @@ struct Observed {
     accepted: bool,
     analysis_warnings: usize,
     semantic_warnings: Vec<String>,
+    /// (message, byte offset of the span start) of every non-`analysis` warning
+    warning_sites: Vec<(String, usize)>,
     plan_present: bool,
     crate_says: Option<(String, u64, u64)>,
     output: Vec<String>,
@@ -115,6 +117,7 @@ fn observe(src: &str, run: bool) -> Observed {
         accepted: false,
         analysis_warnings: 0,
         semantic_warnings: Vec::new(),
+        warning_sites: Vec::new(),
         plan_present: false,
         crate_says: None,
         output: Vec::new(),
@@ -158,6 +161,7 @@ fn observe(src: &str, run: bool) -> Observed {
                 o.analysis_warnings += 1;
             } else {
                 o.semantic_warnings.push(d.message.to_string());
+                o.warning_sites.push((d.message.to_string(), d.span.start));
             }
         }
     }
@@ -386,7 +390,7 @@ fn judge(ctx: &mut Ctx, idx: u64, f: &Family, n: u64, position: &str, naija: Opt
                         "crate_says": o.crate_says, "analysis_warnings": o.analysis_warnings, "semantic_warnings": o.semantic_warnings.len(),
                         "plan_present": o.plan_present, "skipped": o.skipped, "ending": o.ending, "source_bytes": src.len()});
     ctx.out.record(&detail);
-    let mut fail = |ctx: &mut Ctx, what: &str| {
+    let fail = |ctx: &mut Ctx, what: &str| {
         ctx.out.fail(idx, &format!("{what}|{}|{position}", f.target), detail.clone(), replay.clone());
     };
     if !o.accepted {
@@ -466,7 +470,154 @@ fn judge(ctx: &mut Ctx, idx: u64, f: &Family, n: u64, position: &str, naija: Opt
     }
 }
 
+// ----- programs far below every cap that are hard for the analyses -------------------------
+//
+// "Just below a limit the analyses run as usual" must hold a fortiori far below every limit,
+// however the call graph is shaped. A fixed tail of statements whose warnings and pruning depend
+// on the interprocedural summaries follows a call graph of n functions; what the analyses say
+// about the tail, and how many statements the run skips, must be what they are for n = 3.
+
+const DENSE_SIZES: [u64; 8] = [3, 24, 90, 200, 340, 420, 640, 900];
+const DENSE_SHAPES: [&str; 6] = ["ring-forward", "ring-backward", "chain-forward", "chain-backward", "two-callees", "ring-forward-writing-global"];
+
+fn dense_program(shape: &str, n: u64) -> (String, usize, Vec<String>) {
+    let mut s = String::new();
+    let writes = shape == "ring-forward-writing-global";
+    if writes {
+        s.push_str("make zz_g get 0\n");
+    }
+    let def = |i: u64, callees: &[u64], s: &mut String| {
+        s.push_str(&format!("do f{i}(k) start\n"));
+        if writes {
+            s.push_str("    zz_g get zz_g add 1\n");
+        }
+        s.push_str("    if to say (k small pass 1) start\n        return 0\n    end\n");
+        let calls: Vec<String> = callees.iter().map(|c| format!("f{c}(k minus 1)")).collect();
+        if calls.is_empty() {
+            s.push_str("    return 1\nend\n");
+        } else {
+            s.push_str(&format!("    return 1 add {}\nend\n", calls.join(" add ")));
+        }
+    };
+    let order: Vec<u64> = if shape.ends_with("backward") { (0..n).rev().collect() } else { (0..n).collect() };
+    for &i in &order {
+        match shape {
+            "ring-forward" | "ring-backward" | "ring-forward-writing-global" => def(i, &[(i + 1) % n], &mut s),
+            "chain-forward" | "chain-backward" => {
+                if i + 1 < n { def(i, &[i + 1], &mut s) } else { def(i, &[], &mut s) }
+            }
+            _ => def(i, &[(i + 1) % n, (i * 7 + 3) % n], &mut s),
+        }
+    }
+    let tail_at = s.len();
+    // the tail: two dead stores around a call into the graph, a live store, an unused variable,
+    // unreachable code in a function, and a statement the plan may skip
+    s.push_str("make zz_d get 1\nzz_d get 2\nmake zz_r get f0(2)\nzz_d get 3\nshout(zz_r)\nshout(zz_d)\n");
+    s.push_str("make zz_unused get 7\ndo zz_s() start\n    return 1\n    shout(\"never\")\nend\nshout(zz_s())\n");
+    let hops: u64 = match shape {
+        "two-callees" => 7,          // 1 + 2 + 4 calls at k = 2, 1, 0
+        _ => 3u64.min(n),
+    };
+    let r = match shape {
+        "two-callees" => 3,          // 1 + (1 + 0 + 0) + (1 + 0 + 0)
+        "chain-forward" | "chain-backward" if n < 3 => n - 1,
+        _ => 2,
+    };
+    let mut out = vec![r.to_string(), "3".to_string(), "1".to_string()];
+    if writes {
+        s.push_str("shout(zz_g)\n");
+        out.push(hops.to_string());
+    }
+    (s, tail_at, out)
+}
+
+struct TailView {
+    warnings: Vec<(String, usize)>,
+    skipped: u64,
+}
+
+fn tail_view(o: &Observed, tail_at: usize) -> TailView {
+    let mut w: Vec<(String, usize)> = o.warning_sites.iter().filter(|(_, at)| *at >= tail_at).map(|(m, at)| (m.clone(), at - tail_at)).collect();
+    w.sort();
+    TailView { warnings: w, skipped: o.skipped }
+}
+
+fn run_dense(ctx: &mut Ctx) {
+    let total = (DENSE_SHAPES.len() * (DENSE_SIZES.len() - 1)) as u64;
+    let idxs: Vec<u64> = ctx.indices().filter(|i| *i < total).collect();
+    for idx in idxs {
+        ctx.out.begin(idx);
+        let shape = DENSE_SHAPES[idx as usize / (DENSE_SIZES.len() - 1)];
+        let n = DENSE_SIZES[1 + idx as usize % (DENSE_SIZES.len() - 1)];
+        if n > ctx.opt_u64("dense-max", 420) {
+            continue;
+        }
+        ctx.out.evaluations += 1;
+        let replay = json!({"stage": "dense", "shape": shape, "size": n});
+        let (base_src, base_tail, base_out) = dense_program(shape, DENSE_SIZES[0]);
+        let (src, tail_at, expected) = dense_program(shape, n);
+        let both = util::guarded(|| (observe(&base_src, true), observe(&src, true)));
+        let (b, o) = match both {
+            Ok(x) => x,
+            Err((msg, loc)) => {
+                let sig = format!("panic|{}|{}", util::normalise_msg(&msg), util::panic_site(&loc));
+                ctx.out.fail(idx, &sig, json!({"panic": msg, "at": loc, "shape": shape, "size": n}), replay);
+                continue;
+            }
+        };
+        let over = exceeded(&o.metrics);
+        let (bv, ov) = (tail_view(&b, base_tail), tail_view(&o, tail_at));
+        let detail = json!({"shape": shape, "size": n, "metrics": o.metrics.to_json(), "over": over, "crate_says": o.crate_says,
+                            "analysis_warnings": o.analysis_warnings, "plan_present": o.plan_present, "skipped": o.skipped, "skipped_at_size_3": b.skipped,
+                            "tail_warnings": ov.warnings, "tail_warnings_at_size_3": bv.warnings, "ending": o.ending, "output": o.output});
+        ctx.out.record(&json!({"dense": shape, "size": n, "functions": o.metrics.functions, "summary_events_bound": o.metrics.summary_events,
+                               "skipped": o.skipped, "tail_warnings": ov.warnings.len()}));
+        let fail = |ctx: &mut Ctx, what: &str| ctx.out.fail(idx, &format!("dense|{what}|{shape}"), detail.clone(), replay.clone());
+        if !b.accepted || b.output != base_out || b.ending != "ok" || bv.warnings.is_empty() || b.skipped == 0 {
+            ctx.out.inconclusive(idx, "dense: the size-3 baseline is not what the generator expects", json!({"shape": shape, "output": b.output, "ending": b.ending, "warnings": bv.warnings, "skipped": b.skipped}));
+            continue;
+        }
+        if !over.is_empty() {
+            ctx.out.inconclusive(idx, "dense: program is over a cap", json!({"shape": shape, "size": n, "over": over}));
+            continue;
+        }
+        if !o.accepted {
+            fail(ctx, "rejected");
+            continue;
+        }
+        if o.output != expected || o.ending != "ok" {
+            fail(ctx, "wrong-result");
+            continue;
+        }
+        if o.crate_says.is_some() || o.analysis_warnings != 0 {
+            fail(ctx, "limit-warning-although-within-caps");
+            continue;
+        }
+        if !o.plan_present {
+            fail(ctx, "no-plan-although-within-caps");
+            continue;
+        }
+        if ov.warnings != bv.warnings {
+            fail(ctx, "analysis-warnings-depend-on-size");
+            continue;
+        }
+        if ov.skipped != bv.skipped {
+            fail(ctx, "pruning-depends-on-size");
+            continue;
+        }
+        ctx.out.tag(&format!("dense.{shape}"));
+        ctx.out.tag("dense.within-caps-same-as-small");
+        if n >= 90 {
+            ctx.out.nontrivial(util::hash64(format!("dense|{shape}|{n}").as_bytes()));
+        }
+    }
+}
+
 pub fn run(ctx: &mut Ctx) {
+    if ctx.opt("stage") == Some("dense") {
+        run_dense(ctx);
+        return;
+    }
     let fams = families();
     let naija = ctx.opt("naija").map(str::to_string);
     let scratch = ctx.opt("scratch").map(str::to_string);
